@@ -161,3 +161,40 @@ def make_existence(p):
     to = {int(k): list(v) for k, v in (p.get('tgt_override') or {}).items()} or None
     return NodeExistence(src_exists=p.get('src_exists'), tgt_exists=p.get('tgt_exists'),
                          src_n_conn_override=so, tgt_n_conn_override=to)
+
+
+def build_sup(sup_spec, src_built, initialize=True):
+    """supplementary graph from a sup spec:
+    {"nodes": [names], "edges": [[u, v]], "start": [names],
+     "sel": [{"key", "origin", "options": [names],
+              "mapping": {"type": "option", "src": <src sel key>, "map": [[src option name | None, sup option name]]}
+                       | {"type": "existence", "map": [[src node name | None, sup option name]]}}]}
+    Returns (Built for the sup graph, list of exceptions per stage)."""
+    from adsg_core.graph.sup import SupDSG, SupNode, SupSelChoiceOptionMapping, SupExistenceMapping
+    b = Built()
+    b.spec = sup_spec
+    dsg = SupDSG()
+    for n in sup_spec['nodes']:
+        obj = SupNode(n)
+        b.node[n] = obj
+        b._name[obj] = n
+    for u, v in sup_spec.get('edges', []):
+        dsg.add_edge(b.node[u], b.node[v])
+    for c in sup_spec['sel']:
+        cn = dsg.add_selection_choice(c['key'], b.node[c['origin']], [b.node[o] for o in c['options']])
+        b.sel[c['key']] = cn
+        b._name[cn] = 'S:' + c['key']
+    for c in sup_spec['sel']:
+        for m in c.get('mappings', [c['mapping']] if c.get('mapping') else []):
+            mp = {}
+            for k, v in m['map']:
+                mp[None if k is None else src_built.node[k]] = b.node[v]
+            if m['type'] == 'option':
+                mapping = SupSelChoiceOptionMapping(src_built.sel[m['src']], mp)
+            else:
+                mapping = SupExistenceMapping(mp)
+            dsg.add_mapping(b.sel[c['key']], src_built.dsg, mapping)
+    if initialize:
+        dsg = dsg.set_start_nodes({b.node[s] for s in sup_spec['start']})
+    b.dsg = dsg
+    return b
